@@ -24,6 +24,10 @@ KEYS = ["left", "right", "up", "down", "home", "end", "backspace", "delete", "en
 CHARS = list("ab Z9.-") + ["é", "日", "本", "́", "\t"]
 
 
+def pos_inside_char(text: bytes, pos: int) -> bool:
+    return 0 < pos < len(text) and text[pos] & 0xC0 == 0x80
+
+
 def char_width(ch: str) -> int:
     import unicodedata  # noqa: PLC0415
 
@@ -55,6 +59,10 @@ class _Run:
         cap = cfg.get("caption", "")
         txt = cfg.get("text", "") if text is None else text
         if k == "edit":
+            if cfg.get("bytes"):
+                # a bytes caption and text (UTF-8): offsets count bytes and must never split a character
+                cap = cap.encode("utf-8") if isinstance(cap, str) else cap
+                txt = txt.encode("utf-8") if isinstance(txt, str) else txt
             e = urwid.Edit(cap, txt, multiline=cfg.get("multiline", False), align=cfg.get("align", "left"), wrap=cfg.get("wrap", "space"), allow_tab=cfg.get("allow_tab", False), mask=cfg.get("mask"))
         elif k == "int":
             e = urwid.IntEdit(cap, txt if txt else None)
@@ -132,6 +140,16 @@ class _Run:
         self.last_render = None  # (maxcol, focus, text, pos) of the last render with nothing since
         self.log.add("cfg", [repr(cfg)])
 
+    def note_zero_width_text(self) -> None:
+        e = self.e
+        full_now = e.caption + e.edit_text
+        if isinstance(full_now, bytes):
+            full_now = full_now.decode("utf-8", "replace")
+        if any(ch == "\u0301" and (j == 0 or full_now[j - 1] in "\n \u0301\t") for j, ch in enumerate(full_now)):
+            # a display row may then consist of zero-width characters only: text layout (C03) emits
+            # zero-width segments it rejects itself; recorded as a known finding
+            self.tags.add("zero-width-char-not-attached-to-a-letter")
+
     def step(self, i, op: dict, perform=None) -> bool:  # noqa: C901, PLR0911, PLR0912, PLR0915
         """One operation: perform it on the real widget (directly, or through `perform` when the call is made by
         somebody else - MainLoop in a full-stack run - and merely observed), then compare with the reference
@@ -145,11 +163,10 @@ class _Run:
         k = op["op"]
         del self.signals[:]
         before_text, before_pos = e.edit_text, e.edit_pos
-        full_now = e.caption + e.edit_text
-        if any(ch == "\u0301" and (j == 0 or full_now[j - 1] in "\n \u0301\t") for j, ch in enumerate(full_now)):
-            # a display row may then consist of zero-width characters only: text layout (C03) emits
-            # zero-width segments it rejects itself; recorded as a known finding
-            self.tags.add("zero-width-char-not-attached-to-a-letter")
+        if isinstance(e.edit_text, bytes) and pos_inside_char(e.edit_text, e.edit_pos):
+            self.violate("C10.2", "offset-inside-a-multi-byte-character", f"step {i}: text {e.edit_text!r} pos {e.edit_pos}")
+            return False
+        self.note_zero_width_text()
         try:
             if k == "key":
                 key = op["key"]
@@ -243,17 +260,32 @@ class _Run:
                 res.fault("width_change")
                 self.last_render = None
             elif k == "set_text":
-                e.set_edit_text(op["text"])
-                self.m_text = op["text"]
+                new_text = op["text"].encode("utf-8") if cfg.get("bytes") else op["text"]
+                e.set_edit_text(new_text)
+                if isinstance(new_text, bytes) and pos_inside_char(e.edit_text, e.edit_pos):
+                    # set_edit_text() keeps the old byte offset (clamped to the new length); where that is inside a
+                    # character of the new text is the application's business (not a key or click): it re-positions
+                    fix = e.edit_pos
+                    while pos_inside_char(e.edit_text, fix):
+                        fix -= 1
+                    e.set_edit_pos(fix)
+                    res.probe("bytes_mode_application_repositioned_after_set_text")
+                self.m_text = new_text
                 self.m_pos = min(self.m_pos, len(self.m_text)) if e.edit_pos == min(self.m_pos, len(self.m_text)) else e.edit_pos
                 self.m_pos = e.edit_pos
                 self.m_pref = None
                 self.last_render = None
             elif k == "set_pos":
-                e.set_edit_pos(op["pos"])
-                self.m_pos = max(0, min(op["pos"], len(before_text)))
+                want_pos = op["pos"]
+                if isinstance(before_text, bytes):
+                    # the application passes offsets of character boundaries (set_edit_pos documents no adjustment)
+                    want_pos = max(0, min(want_pos, len(before_text)))
+                    while pos_inside_char(before_text, want_pos):
+                        want_pos -= 1
+                e.set_edit_pos(want_pos)
+                self.m_pos = max(0, min(want_pos, len(before_text)))
                 if e.edit_pos != self.m_pos:
-                    self.violate("C10.2", "set_edit_pos-not-clamped-to-text", f"step {i}: {op['pos']} -> {e.edit_pos}, text length {len(before_text)}")
+                    self.violate("C10.2", "set_edit_pos-not-clamped-to-text", f"step {i}: {want_pos} -> {e.edit_pos}, text length {len(before_text)}")
                     return False
                 self.m_pref = None
                 self.last_render = None
@@ -262,10 +294,15 @@ class _Run:
                 raise core.HarnessError(f"harness exception in op {op}: {core.format_exc(ex)}") from ex
             self.violate("C10.1", f"{k}-raised:{core.exc_signature(ex)}", f"step {i} {op} width {self.maxcol} text {before_text!r} pos {before_pos}: {core.format_exc(ex)}")
             return False
-        # clause 2: offset within the text
+        # clause 2: offset within the text, never inside a multi-byte character
         if not 0 <= e.edit_pos <= len(e.edit_text):
             self.violate("C10.2", "offset-outside-text", f"step {i}: pos {e.edit_pos} len {len(e.edit_text)}")
             return False
+        if isinstance(e.edit_text, bytes):
+            if pos_inside_char(e.edit_text, e.edit_pos):
+                self.violate("C10.2", "offset-inside-a-multi-byte-character", f"step {i}: text {e.edit_text!r} pos {e.edit_pos}")
+                return False
+            self.res.probe("bytes_mode_step_checked")
         # clause 5: change before with the new text, postchange after with the old text
         if e.edit_text != before_text or self.signals:
             if not self.check_signals(i, self.signals, before_text, e.edit_text, k):
@@ -390,6 +427,7 @@ class _Run:
             if core.raised_in_harness(exc):
                 raise core.HarnessError(f"harness exception in full-stack run: {core.format_exc(exc)}") from exc
             if not res.violations:
+                self.note_zero_width_text()
                 self.violate("C10.1", f"full-stack-run-raised:{core.exc_signature(exc)}", core.format_exc(exc))
         elif how in ("livelock", "quiescent") and not res.violations:
             self.violate("C10.1", f"full-stack-run-{how}", str(exc))
@@ -415,32 +453,57 @@ class _Run:
         return key if key in KEYS else "char"
 
     # ---- reference editor -------------------------------------------------------------------
+    # ---- one character forwards / backwards: one code point of a str, one UTF-8 sequence of a bytes text --------
+    @staticmethod
+    def nxt(text, pos: int) -> int:
+        if isinstance(text, str):
+            return pos + 1
+        p = pos + 1
+        while p < len(text) and text[p] & 0xC0 == 0x80:
+            p += 1
+        return p
+
+    @staticmethod
+    def prv(text, pos: int) -> int:
+        if isinstance(text, str):
+            return pos - 1
+        p = pos - 1
+        while p > 0 and text[p] & 0xC0 == 0x80:
+            p -= 1
+        return p
+
+    @staticmethod
+    def enc(text, s: str):
+        """`s` in the type of `text`."""
+        return s if isinstance(text, str) else s.encode("utf-8")
+
     def model_key(self, key, text, pos, pref, maxcol, cfg, tl, caplen, Align):  # noqa: C901, PLR0911, PLR0912, N803
         """(text, pos, pref, handled) expected after `key`, or None when the model has no opinion."""
         multiline, allow_tab = cfg.get("multiline", False), cfg.get("allow_tab", False)
         if self.kind != "edit" and len(key) == 1 and ord(key) >= 32 and not self.num_valid(key, text, pos, cfg):
             return text, pos, pref, False
         if len(key) == 1 and ord(key) >= 32 or (len(key) == 1 and key == "́"):
-            return text[:pos] + key + text[pos:], pos + len(key), None, True
+            k = self.enc(text, key)
+            return text[:pos] + k + text[pos:], pos + len(k), None, True
         if len(key) == 1:
             return None  # control characters: valid_char() decides, not specified
         if key == "tab":
             if not allow_tab:
                 return text, pos, pref, False
-            s = " " * (8 - pos % 8)
+            s = self.enc(text, " " * (8 - pos % 8))
             return text[:pos] + s + text[pos:], pos + len(s), None, True
         if key == "enter":
             if not multiline:
                 return text, pos, pref, False
-            return text[:pos] + "\n" + text[pos:], pos + 1, None, True
+            return text[:pos] + self.enc(text, "\n") + text[pos:], pos + 1, None, True
         if key == "left":
-            return (text, pos, pref, False) if pos == 0 else (text, pos - 1, None, True)
+            return (text, pos, pref, False) if pos == 0 else (text, self.prv(text, pos), None, True)
         if key == "right":
-            return (text, pos, pref, False) if pos >= len(text) else (text, pos + 1, None, True)
+            return (text, pos, pref, False) if pos >= len(text) else (text, self.nxt(text, pos), None, True)
         if key == "backspace":
-            return (text, pos, None, False) if pos == 0 else (text[: pos - 1] + text[pos:], pos - 1, None, True)
+            return (text, pos, None, False) if pos == 0 else (text[: self.prv(text, pos)] + text[pos:], self.prv(text, pos), None, True)
         if key == "delete":
-            return (text, pos, None, False) if pos >= len(text) else (text[:pos] + text[pos + 1 :], pos, None, True)
+            return (text, pos, None, False) if pos >= len(text) else (text[:pos] + text[self.nxt(text, pos) :], pos, None, True)
         if key in ("up", "down", "home", "end"):
             full, trans = self.geometry(text, maxcol)
             # the real widget may show a shifted view of the cursor row (clip mode); the shift moves the
@@ -488,6 +551,10 @@ class _Run:
                 break
             col += w
         pos, text = e.edit_pos, e.edit_text
+        if isinstance(text, bytes):
+            # the character that starts at the byte offset
+            tail = text[pos : self.nxt(text, pos)].decode("utf-8", "replace") if pos < len(text) else ""
+            text, pos = (tail or " "), 0
         want = text[pos] if pos < len(text) else " "
         if want in "\n\t" or (ord(want) < 32):
             return True
@@ -565,11 +632,11 @@ class EditEngine(Engine):
     assumptions = [
         "display-row geometry (which offset is at which cell) comes from urwid's text layout on a fresh twin Edit: layout itself is trusted (C03)",
         "a click is checked against the last rendering only when nothing changed between that render and the click",
-        "str text only (bytes captions/texts are not generated); one code point = one character",
+        "a fifth of the Edit histories use a bytes caption and text (UTF-8): offsets count bytes, one character = one UTF-8 sequence, the offset must never fall inside one; otherwise one code point = one character",
         "numeric variants follow the same editor model restricted to their documented alphabet; after a handled key, leading zeros left of the cursor are removed and the cursor stays on its character (IntEdit, FloatEdit, IntegerEdit base 10)",
     ]
     components = {"real": ["Edit, IntEdit, IntegerEdit, FloatEdit, signals, text_layout (trusted for geometry)"], "stub": [], "driven": ["render / width-change placement between input events"]}
-    required_probes = ("cursor_cell_checked", "signals_checked", "click_checked_against_last_render", "click_with_stale_view_shift", "leading_zeros_trimmed_with_cursor_at_end")
+    required_probes = ("cursor_cell_checked", "signals_checked", "click_checked_against_last_render", "click_with_stale_view_shift", "leading_zeros_trimmed_with_cursor_at_end", "bytes_mode_step_checked")
     reducible = ("ops",)
     _wide = False
     _comb = False
@@ -610,6 +677,9 @@ class EditEngine(Engine):
                 "mask": rng.choice([None, None, None, "*"]),
                 "width": rng.choice([2, 3, 5, 8, 12, 20] if self._wide else [1, 2, 3, 5, 8, 12, 20]),
             }
+            if rng.random() < 0.2:
+                cfg["bytes"] = True
+                cfg["mask"] = None
         else:
             self._wide = False
             kind = rng.choice(["int", "integer", "float"])
